@@ -695,5 +695,49 @@ class WithOtherOptions(Part):
         return res
 
 
+def whitespace_characters():
+    """Every character str.split() separates on, except the two that end a line for the reader."""
+    import sys
+
+    return [chr(c) for c in range(sys.maxunicode + 1) if chr(c).isspace() and chr(c) not in "\n\r"]
+
+
+class Separators(Part):
+    name = "tokens_delimited_by_every_whitespace_character"
+    desc = ("reserved words, listed words and neighbours delimited by each whitespace character there is (space, tab, VT, FF, "
+            "FS..US, NEL, NBSP, the Unicode spaces; computed by scanning all code points), alone and mixed with blanks: a "
+            "whitespace-delimited reserved word stays, everything else as the reference says")
+
+    def __init__(self, tier, seed):
+        self.tier, self.seed = tier, seed
+
+    def cases(self):
+        return [{"words": w, "user_res": u} for w, u in ((["sys"], None), (["ply"], USER_RESERVED), (["face", "b.net"], "LAB.NET-1"))]
+
+    def run(self, case):
+        res = Res()
+        words, user_res = case["words"], case["user_res"]
+        reserved = builtin_reserved()
+        seps = whitespace_characters()
+        res.states = len(seps)
+        if "lines" in case:
+            lines = case["lines"]
+        else:
+            toks = tokens_for(words, reserved, user_res)
+            res_toks = [t for t in toks if t in reserved or t == user_res or t.lower() in {r.lower() for r in reserved}][:6]
+            other = [t for t in toks if t not in res_toks][:4]
+            lines = []
+            for c in seps:
+                for r in res_toks:
+                    lines += ["no" + c + r + c + "x", r + c + r.upper(), c + r + c, "a " + c + r, r + c + " b", "set" + c + c + r]
+                    lines += [o + c + r for o in other] + [r + c + o for o in other]
+        got = run_lines(words, user_res, "saltForTest", lines)
+        res.transitions = len(lines)
+        judge(res, words, user_res, "saltForTest", lines, got, reserved, dict(case), "other-whitespace")
+        if "lines" not in case:
+            res.samples.append({"words": words, "separators": ["U+%04X" % ord(c) for c in seps], "lines": len(lines)})
+        return res
+
+
 def parts(tier, seed):
-    return [ListsPart(tier, seed), SecretsPart(tier, seed), SeedPart(tier, seed), HistoryPart(tier, seed), OwnOutputWords(tier, seed), SecondAnonymizer(tier, seed), HashCollisions(tier, seed), ScrubbedLines(tier, seed), WithOtherOptions(tier, seed)]
+    return [ListsPart(tier, seed), SecretsPart(tier, seed), SeedPart(tier, seed), HistoryPart(tier, seed), OwnOutputWords(tier, seed), SecondAnonymizer(tier, seed), HashCollisions(tier, seed), ScrubbedLines(tier, seed), WithOtherOptions(tier, seed), Separators(tier, seed)]
